@@ -19,7 +19,9 @@ RULE = ("v1: rows = the two recorded CSV days (sampled, optionally with one toke
         "10 x balance/holding, unknown token, token without wallet entry; a fee sweep over (token, USDG delta incl. exact target crossings, direction) against "
         "an integer re-implementation of VaultUtils.getFeeBasisPoints; same-bar round trips.  v2: pools with long/short skew 0.01-50, virtual inventory "
         "present/absent/None, impact pool 0-1e9, zeroed fields, default and perturbed PoolConfig (incl. positive > negative factor, exponent != 2), "
-        "dataclass rows and pandas rows; deposit/withdraw sequences with the same amount classes; round trips.  "
+        "dataclass rows and pandas rows; deposit/withdraw sequences with the same amount classes; round trips.  special numbers: every amount argument of "
+        "buy_glp / sell_glp / deposit / withdraw as float nan, +-inf, -0.0, +-1e90 and Decimal NaN, sNaN, +-Infinity, +-1E+400, -0, 1E-400, with the strict wallet and with "
+        "allow_negative_balance, after 0-2 ordinary operations (no number of the state may become NaN/inf; v2 and finite v1 arguments are also compared with the model).  "
         "bucket = (version, operation, model branch tag or fee branch, outcome class, argument class).")
 TRUSTED = [
     "v1 is Decimal arithmetic: the driver runs the model under round-half-even to 35 digits and every number is compared exactly; theorems are for the exact rational semantics",
@@ -34,6 +36,8 @@ ASSUMPTIONS = [
     "token weights and USDG amounts in a v1 row are integers (as in the recorded data); quantize overflow beyond 35 digits is modelled as InvalidOperation",
     "v2 rows given as pandas Series are well formed (non-zero prices, pool value, supply): numpy floats return inf/nan where Python floats raise ZeroDivisionError",
     "same bar = the pool row does not react to the user's own trade (that is how the backtester works)",
+    "float amounts beyond ~1e100 make `diffUsd ** exponent` raise OverflowError, which the model does not reproduce: the special-number stream stops at 1e90 "
+    "(fixes/gmx-v2-deposit-overflow.md records what happens at 1e308 with allow_negative_balance)",
 ]
 
 
